@@ -992,3 +992,124 @@ def dfa_difference_witness(A, B):
                 seen[nx] = (st, ch)
                 dq.append(nx)
     return None
+
+
+# ---------------------------------------------------------------------------
+# which element gets the blanks in front of a group (backtracking priority)
+_WS_SAMPLE = [0x20, 0x09]
+_NONWS_SAMPLE = [ord(c) for c in "azAZ09.:-"]
+
+
+def _is_ws_loop(e):
+    """greedy repetition (unbounded) of a class that takes blanks"""
+    return isinstance(e, Rep) and e.hi is None and e.mode in ("greedy", "possessive", None, "") and \
+        isinstance(e.child, Char) and all(e.child.cs.contains(cp) for cp in _WS_SAMPLE)
+
+
+def _zero_width(e):
+    return isinstance(e, (Look, Bound))
+
+
+def _ends_nonblank(e, P, depth=0):
+    """every match of e is non-empty and ends with a character that is not a blank (decided
+    conservatively: False when unsure)"""
+    if depth > 12:
+        return False
+    if isinstance(e, Char):
+        return not any(e.cs.contains(cp) for cp in _WS_SAMPLE + [0x0A, 0xA0])
+    if isinstance(e, (Group, Atomic)):
+        return _ends_nonblank(e.child, P, depth + 1)
+    if isinstance(e, Alt):
+        return all(_ends_nonblank(x, P, depth + 1) for x in e.items)
+    if isinstance(e, Seq):
+        for x in reversed(e.items):
+            if _zero_width(x):
+                continue
+            return _ends_nonblank(x, P, depth + 1)
+        return False
+    if isinstance(e, Rep):
+        return e.lo >= 1 and _ends_nonblank(e.child, P, depth + 1)
+    if isinstance(e, Call):
+        g = P.by_idx.get(e.idx)
+        return g is not None and _ends_nonblank(g.child, P, depth + 1)
+    return False
+
+
+def group_may_take_leading_blank(P, gname):
+    """Can the named group, in the match the engine prefers, begin with a blank although an
+    earlier element could have taken it?  True only when some element that is matched directly
+    before the group certainly ends with a non-blank character (so the blank between the two has
+    nowhere else to go) and the group itself accepts a leading blank; False when a greedy blank
+    loop stands directly before the group in every such match, or when unsure."""
+    target = P.group(gname)
+    if target is None:
+        return False
+    # path from the root to the group
+    path = []
+
+    def find(n, trail):
+        if n is target:
+            path.extend(trail)
+            return True
+        for i, ch in enumerate(n.children()):
+            if find(ch, trail + [(n, i)]):
+                return True
+        return False
+    root = getattr(P, "root", None)
+    if root is None or not find(root, []):
+        return False
+    def no_looks(node):
+        k = node.kind
+        if k == "look":
+            return Seq([])
+        if k == "seq":
+            return Seq([no_looks(c) for c in node.items])
+        if k == "alt":
+            return Alt([no_looks(c) for c in node.items])
+        if k == "group":
+            return Group(node.idx, node.name, no_looks(node.child))
+        if k == "atomic":
+            return Atomic(no_looks(node.child))
+        if k == "rep":
+            return Rep(node.lo, node.hi, no_looks(node.child), node.mode)
+        return node
+    try:
+        nfa = build_nfa(no_looks(target.child), P)
+    except Exception:
+        return False
+    # the group accepts a word with a leading blank?
+    takes = False
+    for w in (" pm", " am", " a", " p", " x", " 1"):
+        try:
+            if nfa_match_prefixes(nfa, w):
+                pre = nfa_match_prefixes(nfa, w)
+                if any(k >= 2 for k in pre):
+                    takes = True
+        except Exception:
+            pass
+    if not takes:
+        return False
+    # walk backwards from the group through the enclosing sequences
+    for parent, idx in reversed(path):
+        if isinstance(parent, Seq):
+            j = idx - 1
+            while j >= 0:
+                e = parent.items[j]
+                if _zero_width(e):
+                    j -= 1
+                    continue
+                if _is_ws_loop(e):
+                    return False
+                optional = isinstance(e, Rep) and e.lo == 0
+                if _ends_nonblank(e.child if optional else e, P):
+                    return True       # when this element takes part, the blank lands in the group
+                if optional:
+                    j -= 1
+                    continue
+                return False          # unsure
+            # start of this sequence: continue in the enclosing one
+        elif isinstance(parent, (Group, Atomic, Rep, Alt)):
+            continue
+        else:
+            return False
+    return False
